@@ -52,6 +52,7 @@ def ad_contract(name, kind):
             ("fields-readable", f"forall(0, 10, lambda i: no_sep(seq_of(10, lambda j: {AD_FIELDS}[j])[i]))", ["C09"]),
             ("step-within-max", "as_float(volume) <= self.max_volume", ["C03"]),
         ],
+        updates={"self.__records__": f"records(self) + [gwl_record('{kind}', {AD_FIELDS})]"},
         exc_ensures=[UNCHANGED],
         policy={PREP: "contract"},
         native={"call": f"(self.{name}(rack_label, position, volume, liquid_class=liquid_class, tip=tip, rack_id=rack_id, tube_id=tube_id, rack_type=rack_type, forced_rack_type=forced_rack_type), list(self))[1]",
